@@ -933,22 +933,27 @@ impl<'a> Page<'a> {
 pub struct Pager { _p: core::marker::PhantomData<u8> }
 /// stored content of page `id` (the page-store view of unit c18_pager: Pager::page)
 pub uninterp spec fn pg(p: &Pager, id: u64) -> Seq<u8>;
+/// page `id` is allocated (unit c18_pager: Pager::alloc)
+pub uninterp spec fn live(p: &Pager, id: u64) -> bool;
 impl Pager {
-    //@trusted Pager::read_page: contract proved from the real body in unit c18_pager (a successful read returns the stored content of that page)
+    //@trusted Pager::read_page: contract proved from the real body in unit c18_pager (a successful read returns the stored content of that page, and only allocated pages can be read)
     #[verifier::external_body]
     pub fn read_page(&self, page_id: PageId) -> (r: Result<[u8; PAGE_SIZE]>)
-        ensures r is Ok ==> r->Ok_0@ == pg(self, page_id.0) && 2 <= page_id.0 < 65536
+        ensures r is Ok ==> r->Ok_0@ == pg(self, page_id.0) && 2 <= page_id.0 < 65536 && live(self, page_id.0)
     { unimplemented!() }
-    //@trusted Pager::write_page: contract proved from the real body in unit c18_pager (no other page changes; on success the page holds the given bytes)
+    //@trusted Pager::write_page: contract proved from the real body in unit c18_pager (no other page changes; the allocation map does not change; on success the page holds the given bytes)
     #[verifier::external_body]
     pub fn write_page(&mut self, page_id: PageId, page: &[u8; PAGE_SIZE]) -> (r: Result<()>)
         ensures forall|o: u64| o != page_id.0 ==> #[trigger] pg(final(self), o) == pg(old(self), o),
+            forall|o: u64| #[trigger] live(final(self), o) == live(old(self), o),
             r is Ok ==> pg(final(self), page_id.0) == page@,
     { unimplemented!() }
-    //@trusted Pager::allocate_page: handing out a page changes no page's content (which page it is - one that was free - is the subject of unit c18_pager)
+    //@trusted Pager::allocate_page: contract proved from the real body in unit c18_pager (the page handed out was free and is allocated afterwards; no other page's allocation state and no allocated page's content changes)
     #[verifier::external_body]
     pub fn allocate_page(&mut self) -> (r: Result<PageId>)
-        ensures forall|o: u64| #[trigger] pg(final(self), o) == pg(old(self), o),
+        ensures forall|o: u64| live(old(self), o) ==> #[trigger] pg(final(self), o) == pg(old(self), o),
+            forall|o: u64| live(old(self), o) ==> #[trigger] live(final(self), o),
+            r is Ok ==> !live(old(self), r->Ok_0.0) && live(final(self), r->Ok_0.0) && forall|o: u64| o != r->Ok_0.0 ==> #[trigger] live(final(self), o) == live(old(self), o),
     { unimplemented!() }
 }
 //@item nervusdb-storage/src/index/btree.rs struct BTree
